@@ -1545,3 +1545,336 @@ func rulePoolDrain(c *Ctx, rule string) {
 		c.bad(rule, key, clear.Pos(), fmt.Sprintf("buffers are parked in m.pool at %d sites each cycle but Clear never receives from it: the fixed-capacity pool fills up and, from the third cycle on, the send in Pull (in-memory cycle) or in the chunk writer (Finalise then waits forever) blocks", sends))
 	}
 }
+
+// ---- noskip: a record line is discarded only if blank or a '#' comment ------------
+
+// ruleNoSkip: in the one-line-per-record readers (bed.Reader.Read,
+// gff.Reader.Read) every point from which another line is read without the
+// current one having produced a record or an error — a loop back to the read,
+// a self-call, a call of a function that calls Read again — is reached only
+// when the current line is empty or starts with '#'. Any other content test
+// can match a valid record (a chromosome named "tracker_1"), which is then
+// written but never read back.
+func ruleNoSkip(c *Ctx, rule string, targets [][2]string) {
+	for _, t := range targets {
+		fn := c.fn(t[0], t[1])
+		// functions that can reach fn again
+		reachesFn := map[*ssa.Function]bool{}
+		var reach func(g *ssa.Function, seen map[*ssa.Function]bool) bool
+		reach = func(g *ssa.Function, seen map[*ssa.Function]bool) bool {
+			if g == fn {
+				return true
+			}
+			if seen[g] || g.Blocks == nil || !inModule(g) {
+				return false
+			}
+			seen[g] = true
+			for _, b := range g.Blocks {
+				for _, ins := range b.Instrs {
+					if ci, ok := ins.(ssa.CallInstruction); ok {
+						if h := ci.Common().StaticCallee(); h != nil && reach(h, seen) {
+							return true
+						}
+					}
+				}
+			}
+			return false
+		}
+		var readCall *ssa.Call
+		for _, b := range fn.Blocks {
+			for _, ins := range b.Instrs {
+				if call, ok := ins.(*ssa.Call); ok && isBufioMethod(call, "ReadBytes", "ReadString", "ReadSlice", "ReadLine") {
+					readCall = call
+				}
+			}
+		}
+		if readCall == nil {
+			c.und(rule, funcName(fn)+"/read", fn.Pos(), "no line read found")
+			continue
+		}
+		// re-read points
+		type point struct {
+			blk *ssa.BasicBlock
+			pos token.Pos
+			how string
+			own *branchFact // the latch's own branch towards the loop head
+		}
+		var pts []point
+		for _, b := range fn.Blocks {
+			for _, ins := range b.Instrs {
+				if ci, ok := ins.(ssa.CallInstruction); ok {
+					if h := ci.Common().StaticCallee(); h != nil && inModule(h) {
+						if _, known := reachesFn[h]; !known {
+							reachesFn[h] = reach(h, map[*ssa.Function]bool{})
+						}
+						if reachesFn[h] {
+							pts = append(pts, point{blk: b, pos: ins.Pos(), how: "calls " + funcName(h) + ", which reads the next line"})
+						}
+					}
+				}
+			}
+		}
+		for _, lp := range naturalLoops(fn) {
+			if !lp.body[readCall.Block()] {
+				continue
+			}
+			for _, p := range lp.head.Preds {
+				if lp.body[p] {
+					pt := point{blk: p, pos: readCall.Pos(), how: "loops back to the read"}
+					if ifi, ok := p.Instrs[len(p.Instrs)-1].(*ssa.If); ok {
+						if bo, ok := ifi.Cond.(*ssa.BinOp); ok {
+							for e, sblk := range p.Succs {
+								if sblk == lp.head {
+									pt.own = &branchFact{bo, e}
+								}
+							}
+						}
+					}
+					pts = append(pts, pt)
+				}
+			}
+		}
+		lineViews := (&bufAlias{}).views([]ssa.Value{extractOf(readCall, 0)}, readCall)
+		isView := func(v ssa.Value) bool { _, ok := lineViews[v]; return ok }
+		n := 0
+		for _, pt := range pts {
+			n++
+			key := fmt.Sprintf("%s/next-line-without-record#%d", funcName(fn), n)
+			okSkip := false
+			facts := branchesAt(pt.blk)
+			if pt.own != nil {
+				facts = append(facts, *pt.own)
+			}
+			for _, bf := range facts {
+				x, y := bf.cond.X, bf.cond.Y
+				// len(line) == 0
+				if lc := builtinCall(x, "len"); lc != nil && isView(lc.Call.Args[0]) {
+					if k, ok := constIntVal(y); ok && k == 0 && effectiveOp(bf, true) == token.EQL {
+						okSkip = true
+					}
+				}
+				// line[0] == '#'
+				if u, ok := x.(*ssa.UnOp); ok && u.Op == token.MUL {
+					if ia, ok := u.X.(*ssa.IndexAddr); ok && isView(ia.X) {
+						if i0, ok := constIntVal(ia.Index); ok && i0 == 0 {
+							if k, ok := constIntVal(y); ok && k == '#' && effectiveOp(bf, true) == token.EQL {
+								okSkip = true
+							}
+						}
+					}
+				}
+			}
+			// HasPrefix(line, "#…") true on the way
+			for d := pt.blk; d != nil; d = d.Idom() {
+				ifi, ok := d.Instrs[len(d.Instrs)-1].(*ssa.If)
+				if !ok || d == pt.blk && len(d.Succs) == 2 {
+					continue
+				}
+				call, ok := ifi.Cond.(*ssa.Call)
+				if !ok || !(calleeIs(&call.Call, "bytes", "HasPrefix") || calleeIs(&call.Call, "strings", "HasPrefix")) || !isView(call.Call.Args[0]) {
+					continue
+				}
+				if forcedEdge(d, pt.blk) != 0 {
+					continue
+				}
+				if lit := byteSliceLiteral(call.Call.Args[1]); len(lit) > 0 && lit[0] == '#' {
+					okSkip = true
+				}
+			}
+			if okSkip {
+				c.ok(rule, key, pt.pos, "the next line is read only after the current one was found blank or a '#' comment/directive")
+			} else {
+				c.bad(rule, key, pt.pos, "this point "+pt.how+" although the current line is neither blank nor a '#' line on every path here: a well-formed record whose text happens to satisfy the test is written by the writer but silently skipped by the reader")
+			}
+		}
+		if n == 0 {
+			c.ok(rule, funcName(fn)+"/one-line-per-call", fn.Pos(), "Read never reads a second line: every line yields a record or an error")
+		}
+	}
+}
+
+// byteSliceLiteral recovers the constant bytes of []byte("…") / []byte{…}.
+func byteSliceLiteral(v ssa.Value) []byte {
+	switch x := v.(type) {
+	case *ssa.Convert:
+		if k, ok := x.X.(*ssa.Const); ok && k.Value != nil {
+			s := k.Value.ExactString()
+			if len(s) >= 2 && s[0] == '"' {
+				return []byte(s[1 : len(s)-1])
+			}
+		}
+	case *ssa.Slice:
+		if a, ok := x.X.(*ssa.Alloc); ok {
+			out := []byte{}
+			for _, r := range *a.Referrers() {
+				if ia, ok := r.(*ssa.IndexAddr); ok {
+					for _, rr := range *ia.Referrers() {
+						if st, ok := rr.(*ssa.Store); ok {
+							if i, ok := constIntVal(ia.Index); ok {
+								if k, ok := constIntVal(st.Val); ok {
+									for int64(len(out)) <= i {
+										out = append(out, 0)
+									}
+									out[i] = byte(k)
+								}
+							}
+						}
+					}
+				}
+			}
+			return out
+		}
+	case *ssa.Const:
+		if x.Value != nil {
+			s := x.Value.ExactString()
+			if len(s) >= 2 && s[0] == '"' {
+				return []byte(s[1 : len(s)-1])
+			}
+		}
+	}
+	return nil
+}
+
+// ---- padfromends: Flush pads by a difference of like coordinates ------------------
+
+// rulePadFromEnds: the number of fill letters Flush gives a row is the
+// distance between the alignment's edge and the row's edge on the same side:
+// a difference of two Start() values or of two End() values. A difference of
+// lengths agrees with it only when all rows start at the same offset.
+func rulePadFromEnds(c *Ctx, rule string) {
+	fn := c.fn("seq/multi", "(*Multi).Flush")
+	var coord func(v ssa.Value, d int) string
+	coord = func(v ssa.Value, d int) string {
+		if d > 6 {
+			return "?"
+		}
+		switch x := v.(type) {
+		case *ssa.Call:
+			name := ""
+			if x.Call.IsInvoke() {
+				name = x.Call.Method.Name()
+			} else if g := x.Call.StaticCallee(); g != nil {
+				name = g.Name()
+			}
+			switch name {
+			case "Start", "End", "Len":
+				return name
+			}
+			return "?"
+		case *ssa.Phi:
+			res := ""
+			for _, e := range x.Edges {
+				k := coord(e, d+1)
+				if res == "" {
+					res = k
+				} else if res != k {
+					return "?"
+				}
+			}
+			return res
+		case *ssa.Convert:
+			return coord(x.X, d+1)
+		}
+		return "?"
+	}
+	n := 0
+	for _, b := range fn.Blocks {
+		for _, ins := range b.Instrs {
+			call, ok := ins.(*ssa.Call)
+			if !ok {
+				continue
+			}
+			g := call.Call.StaticCallee()
+			if g == nil || g.Name() != "Repeat" || len(call.Call.Args) < 2 {
+				continue
+			}
+			n++
+			key := fmt.Sprintf("multi.(*Multi).Flush/pad-length#%d", n)
+			cnt := call.Call.Args[len(call.Call.Args)-1]
+			bo, ok := cnt.(*ssa.BinOp)
+			if !ok || bo.Op != token.SUB {
+				c.und(rule, key, call.Pos(), "the pad length is not a difference")
+				continue
+			}
+			l, r := coord(bo.X, 0), coord(bo.Y, 0)
+			switch {
+			case (l == "Start" && r == "Start") || (l == "End" && r == "End"):
+				c.ok(rule, key, call.Pos(), "pad length = difference of two "+l+"() coordinates")
+			case l == "Len" || r == "Len":
+				c.bad(rule, key, call.Pos(), "the pad length is computed from lengths ("+l+"() - "+r+"()) instead of the distance between the alignment's edge and the row's edge: rows that do not start where the alignment starts are over-padded by their offset, so the alignment grows and is still not flush")
+			default:
+				c.und(rule, key, call.Pos(), "cannot tell what the pad length is a difference of ("+l+", "+r+")")
+			}
+		}
+	}
+	if n == 0 {
+		c.und(rule, "multi.(*Multi).Flush/pad-length", fn.Pos(), "no Repeat(...) padding found")
+	}
+}
+
+// ---- signround: rounding to a signed score is symmetric about zero ----------------
+
+// ruleSignRound: a float converted to the signed Solexa score type is first
+// rounded to nearest in a sign-aware way: both `+ 0.5` and `- 0.5` reach the
+// conversion (selected by the sign), or math.Round is used. `+ 0.5` alone
+// followed by the truncating conversion rounds negative values towards zero.
+func ruleSignRound(c *Ctx, rule string) {
+	p := c.pkg("alphabet")
+	n := 0
+	for _, f := range srcFuncs(c.SPkgs[p.PkgPath]) {
+		for _, b := range f.Blocks {
+			for _, ins := range b.Instrs {
+				cv, ok := ins.(*ssa.Convert)
+				if !ok || !isNamed(cv.Type(), p.PkgPath, "Qsolexa") {
+					continue
+				}
+				if bt, ok := cv.X.Type().Underlying().(*types.Basic); !ok || bt.Info()&types.IsFloat == 0 {
+					continue
+				}
+				n++
+				c.Funcs[funcName(f)] = true
+				key := fmt.Sprintf("%s/float-to-Qsolexa#%d", funcName(f), n)
+				plus, minus, round := false, false, false
+				seen := map[ssa.Value]bool{}
+				var walk func(v ssa.Value, d int)
+				walk = func(v ssa.Value, d int) {
+					if d > 8 || seen[v] {
+						return
+					}
+					seen[v] = true
+					switch x := v.(type) {
+					case *ssa.Phi:
+						for _, e := range x.Edges {
+							walk(e, d+1)
+						}
+					case *ssa.BinOp:
+						if k, ok := x.Y.(*ssa.Const); ok && k.Value != nil && k.Value.ExactString() == "1/2" {
+							if x.Op == token.ADD {
+								plus = true
+							}
+							if x.Op == token.SUB {
+								minus = true
+							}
+						}
+					case *ssa.Call:
+						if g := x.Call.StaticCallee(); g != nil && g.Pkg != nil && g.Pkg.Pkg.Path() == "math" && (g.Name() == "Round" || g.Name() == "RoundToEven") {
+							round = true
+						}
+					}
+				}
+				walk(cv.X, 0)
+				switch {
+				case round || (plus && minus):
+					c.ok(rule, key, cv.Pos(), "rounded to nearest symmetrically before the truncating conversion")
+				case plus:
+					c.bad(rule, key, cv.Pos(), "a float is converted to the signed Solexa score after adding 0.5 only: negative values are rounded towards zero (−5.87 becomes −5), so conversions of low scores are not the analytically converted value rounded to the nearest integer")
+				default:
+					c.bad(rule, key, cv.Pos(), "a float is truncated to the signed Solexa score without rounding to nearest")
+				}
+			}
+		}
+	}
+	if n == 0 {
+		c.und(rule, "alphabet/float-to-Qsolexa", token.NoPos, "no float to Qsolexa conversion found")
+	}
+}
